@@ -159,7 +159,12 @@ def _axis_compat(I, a, b):
             return a, True, True
         if I.ctx.entails(ta == 1):
             return a, False, False
-        raise Unsupported(f"equal-size axes with different factorisation {a} vs {b}")
+        # same size, different digit structure: index the other operand through the flat view
+        from .tshape import convert_comps
+
+        if len(a.factors) >= len(b.factors):
+            return a, True, (lambda comps, a=a, b=b: convert_comps(a, b, comps))
+        return b, (lambda comps, a=a, b=b: convert_comps(b, a, comps)), True
     if I.decide(ta == 1):
         return b, False, True
     if I.decide(tb == 1):
@@ -195,7 +200,10 @@ def _opidx(idx, m, shape):
         if m[k] is None:
             continue
         d = shape[k - k0]
-        res.append(idx[k] if m[k] else zero_index(d))
+        if callable(m[k]):
+            res.append(tuple(m[k](idx[k])))
+        else:
+            res.append(idx[k] if m[k] else zero_index(d))
     return res
 
 
